@@ -399,8 +399,8 @@ func seatConcSuites(tier string, bound int) []*Suite {
 			}
 		}
 		for _, r := range res {
-			if !strings.HasSuffix(r, "=<nil>") || strings.HasPrefix(r, "remove") {
-				continue
+			if !strings.HasSuffix(r, "=<nil>") || !(strings.HasPrefix(r, "assign") || strings.HasPrefix(r, "random")) {
+				continue // only assignments can double-book
 			}
 			inside := r[strings.Index(r, "(")+1 : strings.Index(r, ")")]
 			inside = strings.Trim(strings.Split(inside, ",")[0], "[]")
@@ -419,6 +419,10 @@ func seatConcSuites(tier string, bound int) []*Suite {
 		"batch-random-random":  {random("x", "y"), random("z")},
 		"remove-vs-assign":     {remove("p"), assign("x", 1)},
 		"same-player-random-2": {random("x"), random("x")},
+		"remove-vs-random":     {remove("p"), random("x")},
+		"remove-vs-remove":     {remove("p"), remove("p")},
+		"remove-vs-join":       {remove("p"), smOp{"join(p)", func(s sm.SeatManager) string { return errStr(s.JoinPlayers([]string{"p"})) }}},
+		"remove-vs-has-chips":  {remove("p"), smOp{"haschips(p)", func(s sm.SeatManager) string { return errStr(s.UpdatePlayerHasChips("p", false)) }}},
 	}
 	names := make([]string, 0, len(scen))
 	for k := range scen {
